@@ -11,15 +11,28 @@ R.macro("in_no_table", ["n", "c"],
         "not (c.socket_fileno in n.socket_peers and n.socket_peers[c.socket_fileno] == c)")
 
 R.contract("Node.remove_peer_connection", params={"self": "Node", "conn": "PeerConnection", "disconnect_reason": "int"},
+           ghost={"kc2": "str"},
            ensures=[("gone-from-every-table", "in_no_table(self, conn)"),
                     ("pending-answers-dropped", "not (conn.host_identity in self._peer_waiting_answer)"),
-                    ("own-link-cleared-with-reason-and-time",
+                    ("own-link-cleared-with-reason-and-time-or-taken-over",
                      "implies(not is_none(old(peer_of(self, conn))) and old(some(peer_of(self, conn)).connection) == conn, "
-                     "is_none(some(old(peer_of(self, conn))).connection) and "
+                     "ite(is_none(some(old(peer_of(self, conn))).connection), "
                      "not is_none(some(old(peer_of(self, conn))).last_disconnect) and "
-                     "not is_none(some(old(peer_of(self, conn))).disconnect_reason))"),
+                     "not is_none(some(old(peer_of(self, conn))).disconnect_reason), "
+                     "some(some(old(peer_of(self, conn))).connection).host_identity == conn.host_identity and "
+                     "some(some(old(peer_of(self, conn))).connection) != conn and "
+                     "(some(some(old(peer_of(self, conn))).connection).state == 18 or "
+                     "some(some(old(peer_of(self, conn))).connection).state == 19)))"),
+                    ("another-ready-connection-of-the-same-peer-takes-over-the-link",
+                     "implies(not is_none(old(peer_of(self, conn))) and old(some(peer_of(self, conn)).connection) == conn and "
+                     "old(peer_of(self, conn)) == ite(conn.host_identity in self.peers, self.peers[conn.host_identity], None) and "
+                     "conn.host_identity != '' and kc2 in self.connections and "
+                     "self.connections[kc2].host_identity == conn.host_identity and "
+                     "(self.connections[kc2].state == 18 or self.connections[kc2].state == 19), "
+                     "not is_none(some(old(peer_of(self, conn))).connection))"),
                     ("already-set-reason-kept",
-                     "implies(not is_none(old(peer_of(self, conn))) and not is_none(old(some(peer_of(self, conn)).disconnect_reason)), "
+                     "implies(not is_none(old(peer_of(self, conn))) and not is_none(old(some(peer_of(self, conn)).disconnect_reason)) and "
+                     "not (old(some(peer_of(self, conn)).connection) == conn and not is_none(some(old(peer_of(self, conn))).connection)), "
                      "some(old(peer_of(self, conn))).disconnect_reason == old(some(peer_of(self, conn)).disconnect_reason))"),
                     ("sibling-connection-keeps-the-peer-link",
                      "implies(not is_none(old(peer_of(self, conn))) and not is_none(old(some(peer_of(self, conn)).connection)) and "
@@ -27,8 +40,10 @@ R.contract("Node.remove_peer_connection", params={"self": "Node", "conn": "PeerC
                      "some(old(peer_of(self, conn))).connection == old(some(peer_of(self, conn)).connection))")],
            modifies=["dict:self.connections", "dict:self.peer_sockets", "dict:self.socket_peers",
                      "dict:self._half_ready_connections", "dict:self._peer_waiting_answer",
-                     "*Peer.connection", "*Peer.last_disconnect", "*Peer.disconnect_reason", "*Event.flag", "*list:Peer"],
+                     "*Peer.connection", "*Peer.last_disconnect", "*Peer.disconnect_reason", "*Peer.last_connect", "*Event.flag",
+                     "*list:Peer"],
            props=["C13", "C12", "C19", "C09", "C07"])
+R.contracts["Node.remove_peer_connection"].ghost_bind = {"Node._assign_peer_connection": {"k": "conn.ident", "gp": "some(peer)"}}
 R.model("Event", fields={"g_owner": "Any"})
 
 
@@ -95,27 +110,61 @@ _AL_FRESH = ("collected-lists-are-new-and-distinct", "vals_new_and_distinct(app_
 _AL_ROUTES = ("route-lists-untouched", "implies(r in self._peer_routes and w in routes(self, r), "
                                        "items(routes(self, r)[w]) == old(items(routes(self, r)[w])))")
 _AL_FLAG0 = ("flags-untouched-so-far", "as_app(w).is_ready.flag == old(as_app(w).is_ready.flag)")
-R.loop("Node.remove_peer_connection", 0,
-       invariants=[_AL_FRESH, _AL_ROUTES, _AL_FLAG0,
-                   ("peers-of-visited-realms-collected",
-                    "implies(r in done0 and route_peer(self, r, w, p), w in app_list and p in items(app_list[w]))")],
-       modifies=["dict:app_list", "*list:Peer"])
+@R.specfn("conn_keyed_by_ident")
+def _conn_keyed(ex, st, n, k):
+    """instance of the table invariant `self.connections[k].ident == k` (established by _add_peer_connection, the only
+    writer of the table besides deletions)"""
+    from pyvc.speceval import SpecEnv
+    return _VB(ex.spec_bool(SpecEnv(st, {"n": ex.unwrap(n), "k": ex.unwrap(k)}),
+                            "implies(k in n.connections, n.connections[k].ident == k)"))
+
+
+R.assume("table invariant (assumed, instantiated for the visited key): Node.connections is keyed by PeerConnection.ident")
+_LINK = "some(old(peer_of(self, conn))).connection"
+_RDY = "(some(LINK).state == 18 or some(LINK).state == 19)".replace("LINK", _LINK)
+_TAKEN = ("implies(not is_none(old(peer_of(self, conn))) and old(some(peer_of(self, conn)).connection) == conn and "
+          "not is_none(LINK), some(LINK).host_identity == conn.host_identity and RDY and some(LINK) != conn)"
+          .replace("RDY", _RDY).replace("LINK", _LINK))
+R.loop("Node.remove_peer_connection", 0,       # take-over: another ready connection of the same peer gets the link
+       invariants=[("visited-connections-did-not-qualify-or-the-link-is-taken",
+                    ("implies(kc2 in done0 and self.connections[kc2].host_identity == conn.host_identity and "
+                     "conn.host_identity != '' and (self.connections[kc2].state == 18 or self.connections[kc2].state == 19) and "
+                     "old(peer_of(self, conn)) == ite(conn.host_identity in self.peers, self.peers[conn.host_identity], None), "
+                     "not is_none(LINK))").replace("LINK", _LINK)),
+                   ("link-empty-or-taken-over-by-a-ready-connection-of-the-same-peer", _TAKEN),
+                   ("tables-already-cleaned", "in_no_table(self, conn)"),
+                   ("reason-and-time-kept-while-the-link-is-empty",
+                    "implies(is_none(some(peer).connection), some(peer).disconnect_reason == reason0 and "
+                    "some(peer).last_disconnect == ld0)"),
+                   ("the-peer-is-the-connections-peer", "peer == old(peer_of(self, conn))"),
+                   ("disconnect-stamped",
+                    ("implies(not is_none(old(peer_of(self, conn))) and old(some(peer_of(self, conn)).connection) == conn and "
+                     "is_none(LINK), not is_none(some(old(peer_of(self, conn))).last_disconnect) and "
+                     "not is_none(some(old(peer_of(self, conn))).disconnect_reason))").replace("LINK", _LINK))],
+       entry_snap={"reason0": "some(peer).disconnect_reason", "ld0": "some(peer).last_disconnect"},
+       hints=["conn_keyed_by_ident(self, cur)"],
+       modifies=["*Peer.connection", "*Peer.disconnect_reason", "*Peer.last_connect", "dict:self._half_ready_connections"])
 R.loop("Node.remove_peer_connection", 1,
        invariants=[_AL_FRESH, _AL_ROUTES, _AL_FLAG0,
                    ("peers-of-visited-realms-collected",
-                    "implies(r in done0 and route_peer(self, r, w, p), w in app_list and p in items(app_list[w]))"),
+                    "implies(r in done1 and route_peer(self, r, w, p), w in app_list and p in items(app_list[w]))")],
+       modifies=["dict:app_list", "*list:Peer"])
+R.loop("Node.remove_peer_connection", 2,
+       invariants=[_AL_FRESH, _AL_ROUTES, _AL_FLAG0,
+                   ("peers-of-visited-realms-collected",
+                    "implies(r in done1 and route_peer(self, r, w, p), w in app_list and p in items(app_list[w]))"),
                    ("peers-of-visited-apps-collected",
-                    "implies(cur0 == r and w in done1 and route_peer(self, r, w, p), w in app_list and p in items(app_list[w]))")],
+                    "implies(cur1 == r and w in done2 and route_peer(self, r, w, p), w in app_list and p in items(app_list[w]))")],
        modifies=["dict:app_list", "*list:Peer"])
 _KEEP = ("an-application-with-a-ready-collected-peer-keeps-its-flag",
          "implies(w in app_list and is_app(w) and p in items(app_list[w]) and peer_ready(p), "
          "as_app(w).is_ready.flag == old(as_app(w).is_ready.flag))")
-R.loop("Node.remove_peer_connection", 2, invariants=[_KEEP], modifies=["*Event.flag"],
+R.loop("Node.remove_peer_connection", 3, invariants=[_KEEP], modifies=["*Event.flag"],
        hints=["event_owned(as_app(cur))", "event_owned(as_app(w))"],
        local_kinds={"any_peer_ready": "bool"})
-R.loop("Node.remove_peer_connection", 3,
+R.loop("Node.remove_peer_connection", 4,
        invariants=[_KEEP, ("none-ready-so-far", "not any_peer_ready"),
-                   ("visited-peers-not-ready", "implies(p in done3, not peer_ready(p))")],
+                   ("visited-peers-not-ready", "implies(p in done4, not peer_ready(p))")],
        local_kinds={"any_peer_ready": "bool"})
 
 R.contract("Node._generate_connection_id", trusted=True, params={"self": "Node", "cur_iteration": "int"}, returns="str",
@@ -152,7 +201,14 @@ R.contract("Node._add_peer_connection",
            props=["C13", "C12", "C18", "C19"])
 
 R.contract("Node._assign_peer_connection", params={"self": "Node", "conn": "PeerConnection"},
-           ensures=[("known-peer-gets-linked",
+           ghost={"k": "str", "gp": "Peer"},
+           ensures=[("other-half-ready-entries-untouched",
+                     "implies(k != conn.ident, (k in self._half_ready_connections) == old(k in self._half_ready_connections))"),
+                    ("other-peers-untouched",
+                     "implies(not (conn.host_identity != '' and conn.host_identity in self.peers and "
+                     "self.peers[conn.host_identity] == gp), gp.connection == old(gp.connection) and "
+                     "gp.disconnect_reason == old(gp.disconnect_reason) and gp.last_connect == old(gp.last_connect))"),
+                    ("known-peer-gets-linked",
                      "implies(conn.host_identity != '' and conn.host_identity in self.peers, "
                      "is_none(self.peers[conn.host_identity].disconnect_reason) and "
                      "not is_none(self.peers[conn.host_identity].connection) and "
@@ -222,7 +278,7 @@ R.contract("Node.close_connection_socket", params={"self": "Node", "conn": "Peer
            modifies=["conn.state", "conn._read_thread.stopped", "conn._write_thread.stopped", "*Socket.closed",
                      "dict:self.connections", "dict:self.peer_sockets", "dict:self.socket_peers",
                      "dict:self._half_ready_connections", "dict:self._peer_waiting_answer",
-                     "*Peer.connection", "*Peer.last_disconnect", "*Peer.disconnect_reason", "*Event.flag", "*list:Peer"],
+                     "*Peer.connection", "*Peer.last_disconnect", "*Peer.last_connect", "*Peer.disconnect_reason", "*Event.flag", "*list:Peer"],
            props=["C13", "C19", "C11", "C14"])
 
 # ---- C12: reconnect policy -------------------------------------------------------------------------------------
